@@ -55,6 +55,9 @@ var c20DrvScripts = []string{
 	`return (1;`,
 	``,
 	`return keys(Nested);`,
+	`return "100%";`,
+	`return ["%d", "50%s", "%", "%%", "%!t"];`,
+	`return Pct;`,
 	"return \"abc\n",
 	"x = /ab\n",
 	"return \"abc\\",
@@ -74,6 +77,7 @@ var c20DrvLoops = []string{
 }
 
 var c20DrvDocs = []string{
+	`{"Name":"Steve %s","Age":44,"Items":[1,2,3],"Pct":"95% of %d","Score":2.5,"Nested":{"%v":"%x"}}`,
 	`{"Name":"Steve","Age":44,"Items":[1,2,3],"Flag":true,"Nothing":null,"Score":2.5,"Nested":{"Inner":{"Deep":"down"},"b":1}}`,
 	`{"Name":"bob","Age":3,"Items":[],"Flag":false,"Score":-1,"Nested":{}}`,
 	`{}`,
@@ -101,6 +105,14 @@ func (d *c20drv) enumerate(tier string) [][]int32 {
 		}
 		for cut := 0; cut <= len(doc); cut += step {
 			out = append(out, []int32{1, 0, int32(di), int32(cut)})
+		}
+	}
+	for first := 0; first < len(c20DrvLoops)+16; first++ {
+		for second := 0; second < 16; second++ {
+			if tier == "quick" && (first+second)%4 != 0 {
+				continue
+			}
+			out = append(out, []int32{1, 3, int32(first), int32(second), int32((first + second) % 3), int32(second % 2), 0, int32(first % 2)})
 		}
 	}
 	for sub := 0; sub < 4; sub++ {
@@ -180,7 +192,8 @@ func (d *c20drv) run(c *verifsim.Chooser, st *Stats, render bool) *Outcome {
 		o.violate("C20/harness", "no-driver", "VERIF_DRIVER_SIM is not set")
 		return o
 	}
-	kind := c.Intn(3) // 0 torn/faulty JSON, 1 sub-command table, 2 random scenario
+	kind := c.Intn(4) // 0 torn/faulty JSON, 1 sub-command table, 2 random scenario, 3 two scripts on one command line
+	forcedSecond := ""
 	sub := "run"
 	var flags []string
 	script := ""
@@ -210,6 +223,17 @@ func (d *c20drv) run(c *verifsim.Chooser, st *Stats, render bool) *Outcome {
 		if fl&4 != 0 {
 			timeout = "5ms"
 		}
+	case 3:
+		// `run [-timeout d] [-json doc] first second`: the first script may use
+		// up its whole deadline; the second must be judged on its own
+		all := append(append([]string{}, c20DrvLoops...), c20DrvScripts[:16]...)
+		script = all[c.Intn(len(all))]
+		forcedSecond = c20DrvScripts[c.Intn(16)]
+		timeout = []string{"1ms", "300us", "2ms"}[c.Intn(3)]
+		if c.Intn(2) == 1 {
+			doc, haveDoc = c20DrvDocs[c.Intn(2)], true
+		}
+		noOpt = c.Intn(2) == 1
 	default:
 		sub = []string{"run", "run", "run", "lex", "parse", "bytecode"}[c.Intn(6)]
 		switch c.Intn(5) {
@@ -305,7 +329,11 @@ func (d *c20drv) run(c *verifsim.Chooser, st *Stats, render bool) *Outcome {
 	// sometimes a second script on the same command line: nothing of the
 	// first run may leak into the second (context, document)
 	second := ""
-	if kind == 2 && sub == "run" && scriptFault == "" && c.Intn(6) == 1 {
+	if forcedSecond != "" {
+		second = forcedSecond
+		files["second.in"] = &verifsim.SimFile{Data: []byte(second)}
+		args = append(args, "second.in")
+	} else if kind == 2 && sub == "run" && scriptFault == "" && c.Intn(6) == 1 {
 		second = c20DrvScripts[c.Intn(16)]
 		files["second.in"] = &verifsim.SimFile{Data: []byte(second)}
 		args = append(args, "second.in")
@@ -349,7 +377,9 @@ func (d *c20drv) run(c *verifsim.Chooser, st *Stats, render bool) *Outcome {
 		o.violate("C20/driver", sig+" hang", "the driver did not terminate (20 s of wall clock; simulated hard cap 400000 polls)")
 		return o
 	}
-	if res.code != 0 {
+	if res.code != 0 && res.code != 1 {
+		// (status 1 would be an ordinary "it failed" exit; 2 is what a Go
+		// program dies with, anything else is a signal or worse)
 		o.violate("C20/driver", sig+" exit-status", "exit status %d (stderr: %s)", res.code, clip(res.stderr, 400))
 		return o
 	}
@@ -396,6 +426,57 @@ func (d *c20drv) run(c *verifsim.Chooser, st *Stats, render bool) *Outcome {
 		return o
 	}
 	// the library's own answer, under the same simulated deadline
+	// the second script's report must be there too, after the first's
+	checkSecond := func(after string) {
+		if second == "" {
+			return
+		}
+		e2 := evalfilter.New(second)
+		var ctx2 *verifsim.SimContext
+		if timeout != "" {
+			dur, _ := time.ParseDuration(timeout)
+			t2 := int64(dur) / 1000
+			if dur <= 0 {
+				t2 = 0
+			}
+			ctx2 = verifsim.NewSimContext(t2)
+			ctx2.HardCap = 400000
+			e2.SetContext(ctx2)
+		}
+		if err2, esc2 := doPrepare(e2, !noOpt); esc2 == nil {
+			rest := res.stdout
+			if i := strings.Index(rest, after); i >= 0 && after != "" {
+				rest = rest[i+len(after):]
+			}
+			if err2 != nil {
+				if !strings.Contains(rest, err2.Error()) {
+					o.violate("C20/driver", sig+" second-script", "the second script does not compile (%v) but the output after the first report does not say so: %s", err2, clip(rest, 300))
+				}
+			} else {
+				var r2 RawResult
+				obj2 := make(map[string]interface{})
+				if haveDoc {
+					json.Unmarshal([]byte(doc), &obj2)
+				}
+				under(ctx2, func() { r2 = doExecuteRaw(e2, obj2) })
+				verifsim.TakeStdout()
+				switch {
+				case r2.Escaped != nil:
+				case r2.Failed:
+					if !strings.Contains(rest, r2.Err) {
+						o.violate("C20/driver", sig+" second-script", "the second script fails with %q when run by itself; output after the first report: %s", r2.Err, clip(rest, 300))
+					}
+				default:
+					for _, tok := range []string{r2.Type, r2.Inspect, fmt.Sprint(r2.Truth)} {
+						if !strings.Contains(rest, tok) {
+							o.violate("C20/driver", sig+" second-script", "the second script gives type=%s value=%q truth=%v when run by itself; output after the first report lacks %q: %s", r2.Type, r2.Inspect, r2.Truth, tok, clip(rest, 300))
+							break
+						}
+					}
+				}
+			}
+		}
+	}
 	e := evalfilter.New(script)
 	var ctx *verifsim.SimContext
 	if timeout != "" {
@@ -447,52 +528,7 @@ func (d *c20drv) run(c *verifsim.Chooser, st *Stats, render bool) *Outcome {
 		o.violate("C20/driver", sig+" wrong-report", "type %s not reported", r.Type)
 	}
 	if second != "" {
-		// the second script's report must be there too, after the first's
-		e2 := evalfilter.New(second)
-		var ctx2 *verifsim.SimContext
-		if timeout != "" {
-			dur, _ := time.ParseDuration(timeout)
-			t2 := int64(dur) / 1000
-			if dur <= 0 {
-				t2 = 0
-			}
-			ctx2 = verifsim.NewSimContext(t2)
-			ctx2.HardCap = 400000
-			e2.SetContext(ctx2)
-		}
-		if err2, esc2 := doPrepare(e2, !noOpt); esc2 == nil {
-			rest := res.stdout
-			if i := strings.Index(rest, r.Inspect); i >= 0 {
-				rest = rest[i+len(r.Inspect):]
-			}
-			if err2 != nil {
-				if !strings.Contains(rest, err2.Error()) {
-					o.violate("C20/driver", sig+" second-script", "the second script does not compile (%v) but the output after the first report does not say so: %s", err2, clip(rest, 300))
-				}
-			} else {
-				var r2 RawResult
-				obj2 := make(map[string]interface{})
-				if haveDoc {
-					json.Unmarshal([]byte(doc), &obj2)
-				}
-				under(ctx2, func() { r2 = doExecuteRaw(e2, obj2) })
-				verifsim.TakeStdout()
-				switch {
-				case r2.Escaped != nil:
-				case r2.Failed:
-					if !strings.Contains(rest, r2.Err) {
-						o.violate("C20/driver", sig+" second-script", "the second script fails with %q when run by itself; output after the first report: %s", r2.Err, clip(rest, 300))
-					}
-				default:
-					for _, tok := range []string{r2.Type, r2.Inspect, fmt.Sprint(r2.Truth)} {
-						if !strings.Contains(rest, tok) {
-							o.violate("C20/driver", sig+" second-script", "the second script gives type=%s value=%q truth=%v when run by itself; output after the first report lacks %q: %s", r2.Type, r2.Inspect, r2.Truth, tok, clip(rest, 300))
-							break
-						}
-					}
-				}
-			}
-		}
+		checkSecond(r.Inspect)
 		return o
 	}
 	// black-box smoke: the shipped binary prints the same bytes on real files
